@@ -564,7 +564,23 @@ static void run_case(CaseCtx& c)
         c.obs.info.str("construction_ended", pr.how).str("construction_stderr", pr.text);
     }
     else {
-        PolarGrid g = src.make();
+        // value semantics: in half of the cases the checked object is a COPY whose source has since been overwritten with
+        // another grid and destroyed (a copy owns everything it reads)
+        const bool checked_is_copy = rng.coin(0.5);
+        PolarGrid g = [&]() -> PolarGrid {
+            if (!checked_is_copy)
+                return src.make();
+            auto source = std::make_unique<PolarGrid>(src.make());
+            PolarGrid copy = *source;
+            std::vector<double> r2 = {0.05, 0.3, 0.45, 0.9, 1.7, 2.0}, a2;
+            for (int j = 0; j <= 12; j++)
+                a2.push_back(2.0 * M_PI * j / 12.0);
+            a2.back() = 2.0 * M_PI;
+            *source = PolarGrid(r2, a2);
+            source.reset();
+            return copy;
+        }();
+        c.obs.params.b("checked_object_is_copy_of_destroyed_source", checked_is_copy);
         std::vector<double> R, A;
         std::optional<double> split;
         if (src.parametric) {
@@ -630,6 +646,16 @@ static void run_case(CaseCtx& c)
             R.swap(R2);
             A.swap(A2);
             cur = cg;
+            // the copy just assigned must answer like its source after the source is gone (checked in the next round / below)
+        }
+        // the last copy-assigned grid of the chain, after its source went out of scope: spacings still consistent with its own nodes
+        if (levels >= 2) {
+            bool ok = true;
+            for (int i = 0; i + 1 < cur.nr(); i++)
+                ok = ok && cur.radialSpacing(i) == cur.radius(i + 1) - cur.radius(i);
+            for (int j = 0; j < cur.ntheta(); j++)
+                ok = ok && std::fabs(cur.angularSpacing(j) - (cur.theta(j + 1 <= cur.ntheta() - 1 ? j + 1 : 0) + (j + 1 == cur.ntheta() ? 2.0 * M_PI : 0.0) - cur.theta(j))) <= 4e-16 * 2.0 * M_PI;
+            c.obs.require("copy_assigned_grid_consistent_after_source_destroyed", ok, "coarsening-chain");
         }
     }
     sig.i("levels", levels > 4 ? 4 : levels);
